@@ -7,7 +7,7 @@ import time
 import traceback
 import z3
 from . import extract, solve
-from .sym import Engine, Unsupported
+from .sym import Engine, Unsupported, reset_fresh
 from .world import World, REPO
 from . import dsl
 
@@ -17,7 +17,7 @@ if HERE not in sys.path:
 
 SPEC_MODULES = ['spec.calendar']
 CONTRACT_MODULES = ['contracts.inputs']
-VOCAB_MODULES = []
+VOCAB_MODULES = ['pyvc.rx_rules', 'pyvc.prims_sym']
 
 
 def build_world():
@@ -36,7 +36,7 @@ def build_world():
     return w
 
 
-def verify_function(world, qual, timeout_ms=5000, cover=True, mutate=None):
+def verify_function(world, qual, timeout_ms=5000, cover=True, mutate=None, want_models=False, shard=None, skip=()):
     """Generate and discharge all VCs of one function. Returns a JSON-able report."""
     t0 = time.time()
     rep = dict(function=qual, status='ok', obligations=[], covers=[])
@@ -61,7 +61,9 @@ def verify_function(world, qual, timeout_ms=5000, cover=True, mutate=None):
     if mutate is not None:
         fnode = mutate(fnode)
     world.strmode = getattr(c, 'strmode', None) or 'str'
+    reset_fresh()
     eng = Engine(world, c, fnode, ns, cls_qual=info.cls_qual)
+    eng.fn_kind = info.kind
     try:
         obs = eng.run()
     except Unsupported as ex:
@@ -70,12 +72,32 @@ def verify_function(world, qual, timeout_ms=5000, cover=True, mutate=None):
     except Exception as ex:
         rep.update(status='engine-error', error=f'{type(ex).__name__}: {ex}', trace=traceback.format_exc())
         return rep
-    for ob in obs:
+    rep['n_generated'] = len(obs)
+    for k, ob in enumerate(obs):
+        if shard is not None and k % shard[1] != shard[0]:
+            continue
+        if any(k == ob.kind and d in ob.desc for k, d in skip):
+            # obligation class listed as a known finding: one short attempt; if that does not prove it, it is
+            # reported under the finding and never counted as discharged
+            r = solve.check(world, ob, timeout_ms=1500, depth=c.unfold, use_cvc5=False, quick_only=True)
+            if r['result'] != 'proved':
+                rep['obligations'].append(dict(id=ob.id, kind=ob.kind, desc=ob.desc, line=ob.line, result='known-finding',
+                                               backend=None, time=r['time'], model=None))
+                continue
         r = solve.check(world, ob, timeout_ms=timeout_ms, depth=c.unfold)
-        rep['obligations'].append(dict(id=ob.id, kind=ob.kind, desc=ob.desc, line=ob.line, result=r['result'],
-                                       backend=r['backend'], time=r['time'], model=r['model']))
-    if cover:
-        n_reach = 0
+        entry = dict(id=ob.id, kind=ob.kind, desc=ob.desc, line=ob.line, result=r['result'],
+                     backend=r['backend'], time=r['time'], model=r['model'])
+        if r['result'] == 'refuted' and want_models and r.get('z3model') is not None and mutate is None:
+            from . import replay
+            try:
+                entry['replay'] = replay.replay_scalar(world, c, r['z3model'])
+            except replay.CannotConcretize as ex:
+                entry['replay'] = dict(status='not-concretizable', reason=str(ex))
+            except Exception as ex:
+                entry['replay'] = dict(status='replay-error', reason=f'{type(ex).__name__}: {ex}')
+            hook = getattr(c, 'search', None)
+        rep['obligations'].append(entry)
+    if cover and (shard is None or shard[0] == 0):
         for line, what, pc in eng.covers:
             r = solve.cover(world, pc)
             rep['covers'].append(dict(line=line, what=what, result=r))
